@@ -1,0 +1,127 @@
+//! A handle on the crate-private `core::Context`, built through the public `Core::new`.
+
+use crate::core::{Context, Core};
+use crate::net_utils::TcpDestination;
+use crate::settings::{Settings, TlsHostsSettings};
+use crate::shutdown::Shutdown;
+use crate::tcp_forwarder::TcpForwarder;
+use crate::verif::pipes::{test_id, RealSink, RealSource};
+use crate::{authentication, forwarder, tunnel};
+use std::net::{IpAddr, Ipv4Addr, SocketAddr};
+use std::sync::{Arc, Mutex};
+
+pub struct Ctx {
+    pub core: Core,
+    pub(crate) context: Arc<Context>,
+    pub shutdown: Arc<Mutex<Shutdown>>,
+}
+
+impl Ctx {
+    pub fn new(
+        settings: Settings,
+        authenticator: Option<Arc<dyn authentication::Authenticator>>,
+        hosts: TlsHostsSettings,
+    ) -> Result<Self, String> {
+        let shutdown = Shutdown::new();
+        let core = Core::new(settings, authenticator, hosts, shutdown.clone())
+            .map_err(|e| format!("{:?}", e))?;
+        let context = core.verif_context();
+        Ok(Self {
+            core,
+            context,
+            shutdown,
+        })
+    }
+
+    pub fn settings(&self) -> &Settings {
+        &self.context.settings
+    }
+}
+
+/// Plain mirror of `tunnel::ConnectionError`
+#[derive(Debug, Clone, PartialEq, Eq)]
+pub enum ConnErr {
+    Io {
+        kind: std::io::ErrorKind,
+        os: Option<i32>,
+        msg: String,
+    },
+    Authentication(String),
+    Timeout,
+    HostUnreachable,
+    DnsNonroutable,
+    DnsLoopback,
+    Other(String),
+}
+
+impl From<tunnel::ConnectionError> for ConnErr {
+    fn from(e: tunnel::ConnectionError) -> Self {
+        match e {
+            tunnel::ConnectionError::Io(e) => ConnErr::Io {
+                kind: e.kind(),
+                os: e.raw_os_error(),
+                msg: e.to_string(),
+            },
+            tunnel::ConnectionError::Authentication(x) => ConnErr::Authentication(x),
+            tunnel::ConnectionError::Timeout => ConnErr::Timeout,
+            tunnel::ConnectionError::HostUnreachable => ConnErr::HostUnreachable,
+            tunnel::ConnectionError::DnsNonroutable => ConnErr::DnsNonroutable,
+            tunnel::ConnectionError::DnsLoopback => ConnErr::DnsLoopback,
+            tunnel::ConnectionError::Other(x) => ConnErr::Other(x),
+        }
+    }
+}
+
+impl ConnErr {
+    pub(crate) fn into_real(self) -> tunnel::ConnectionError {
+        match self {
+            ConnErr::Io { kind, os, msg } => tunnel::ConnectionError::Io(match os {
+                Some(code) => std::io::Error::from_raw_os_error(code),
+                None => std::io::Error::new(kind, msg),
+            }),
+            ConnErr::Authentication(x) => tunnel::ConnectionError::Authentication(x),
+            ConnErr::Timeout => tunnel::ConnectionError::Timeout,
+            ConnErr::HostUnreachable => tunnel::ConnectionError::HostUnreachable,
+            ConnErr::DnsNonroutable => tunnel::ConnectionError::DnsNonroutable,
+            ConnErr::DnsLoopback => tunnel::ConnectionError::DnsLoopback,
+            ConnErr::Other(x) => tunnel::ConnectionError::Other(x),
+        }
+    }
+}
+
+/// Plain mirror of `net_utils::TcpDestination`
+#[derive(Debug, Clone, PartialEq, Eq)]
+pub enum Dest {
+    Address(SocketAddr),
+    HostName(String, u16),
+}
+
+impl From<&TcpDestination> for Dest {
+    fn from(x: &TcpDestination) -> Self {
+        match x {
+            TcpDestination::Address(a) => Dest::Address(*a),
+            TcpDestination::HostName((h, p)) => Dest::HostName(h.clone(), *p),
+        }
+    }
+}
+
+/// The real `TcpForwarder::connect` (direct forwarder) for the given destination
+pub async fn tcp_connect(ctx: &Ctx, dest: Dest) -> Result<(RealSource, RealSink), ConnErr> {
+    use forwarder::TcpConnector;
+    let connector = Box::new(TcpForwarder::new(ctx.context.clone()));
+    let meta = forwarder::TcpConnectionMeta {
+        client_address: IpAddr::V4(Ipv4Addr::new(203, 0, 113, 1)),
+        destination: match dest {
+            Dest::Address(a) => TcpDestination::Address(a),
+            Dest::HostName(h, p) => TcpDestination::HostName((h, p)),
+        },
+        auth: None,
+        tls_domain: String::new(),
+        user_agent: None,
+    };
+    connector
+        .connect(test_id(7), meta)
+        .await
+        .map(|(rx, tx)| (RealSource(rx), RealSink(tx)))
+        .map_err(ConnErr::from)
+}
